@@ -1,5 +1,5 @@
-CONSTANT Variant = "mass_c11"
-CONSTANT Tier = "quick"
+CONSTANT Variant = "faithful"
+CONSTANT Tier = "thorough"
 INIT Init
 NEXT Next
 INVARIANT InvExpandedLaw
